@@ -1,6 +1,7 @@
 import BufModel.Bucket
 import BufModel.Disk
 import BufModel.Archive
+import BufModel.Reader
 import Driver.Util
 import Driver.Bucket
 /-
@@ -15,6 +16,10 @@ import Driver.Bucket
              R:<i>:<hex path>:<hex temp>:<content> = Close of that writer (rename / publish);
              C:<j> = copy everything readable through the composite into base j
              (storage.Copy, Tar→Untar and Zip→Unzip all have this net effect)
+             reader handles (BufModel.Reader): O:<i>:<hex path>:<n> = Get on BASE i + read n bytes
+             (output ok:<bytes read>; the handle gets the next index 0,1,…), F:<k> = read handle k
+             to the end (output ok:<rest>); P:<i>:<hex>:<content> = an ATOMIC put (= p for the
+             bucket; open readers of a disk base stay on the old inode)
     output: results joined by ';' then for every base '|' + its sorted dump.
     Functions run: rGet, rWalkD, basePut/baseDelete/baseDeleteAll, copyD (BufModel.Disk) — tied to
     rWalk / rCopy / the memory bucket by rWalkD_ok, rWalkD_of_rWalk_ok, copyD_refines_rCopy,
@@ -24,9 +29,11 @@ import Driver.Bucket
       (tarOfSorted = tarOf on the bases in sorted walk order, extractInto of BufModel.Archive)
     xtr <TAB> tar|zip <TAB> strip <TAB> matcher|- <TAB> maxsize <TAB> <hexname>:<r|d|o>:<content>,...
       output: <extract result>|<dump>
+    dup <TAB> tar|zip <TAB> strip <TAB> matcher|- <TAB> maxsize <TAB> entries (as xtr) <TAB> <hexpath>=<content>,...|-
+      = xtr into a bucket that already holds the listed objects (duplicate-member family)
 -/
 namespace Driver.C14
-open BufModel.Path BufModel.Bucket BufModel.Disk BufModel.Archive Driver Driver.Bucket
+open BufModel.Path BufModel.Bucket BufModel.Disk BufModel.Archive BufModel.Reader Driver Driver.Bucket
 
 partial def parseExpr : List String → Option (BExpr × List String)
   | "b" :: i :: r => i.toNat?.map fun n => (.base n, r)
@@ -76,7 +83,7 @@ def stepOp (e : BExpr) (st : DState) (op : String) : DState × String :=
       | some p => (match rWalkD (st.map (·.1)) e bs (s2l p) with
           | (objs, none) => (st, "ok:" ++ dump objs) | (_, some er) => (st, errS er))
       | none => (st, "bad-op")
-  | ["p", i, h, c] => match i.toNat?, hexDecode h with
+  | ["p", i, h, c] | ["P", i, h, c] => match i.toNat?, hexDecode h with
       | some n, some p =>
         let (isDisk, d) := st.getB n
         (match basePut isDisk d (s2l p) (if c = "-" then "" else c) with
@@ -119,6 +126,48 @@ def stepOp (e : BExpr) (st : DState) (op : String) : DState × String :=
       | none => (st, "bad-op")
   | _ => (st, "bad-op")
 
+/-- the write an op performs as far as open readers are concerned (`BufModel.Reader.Write`), with
+    its base; `out` = the op's result -/
+def writeOf (parts : List String) (out : String) : Option (Nat × Write) :=
+  match parts with
+  | ["P", i, h, _] => match i.toNat?, hexDecode h with
+      | some n, some p => if out = "ok" then some (n, .putAtomic (s2l p)) else none
+      | _, _ => none
+  | ["R", i, h, t, _] => match i.toNat?, hexDecode h, hexDecode t with
+      | some n, some p, some tn => some (n, .commit (s2l p) (if tn = "" then none else some (s2l tn)))
+      | _, _, _ => none
+  | ["d", i, h] => match i.toNat?, hexDecode h with
+      | some n, some p => if out = "ok" then some (n, .delete (s2l p)) else none
+      | _, _ => none
+  | ["D", i, h] => match i.toNat?, hexDecode h with
+      | some n, some p => if out = "ok" then some (n, .deleteAll (s2l p)) else none
+      | _, _ => none
+  | _ => none
+
+/-- `stepOp` plus the reader handles -/
+def stepOpH (e : BExpr) (acc : DState × List Handle) (op : String) : (DState × List Handle) × String :=
+  let st := acc.1
+  let hs := acc.2
+  match op.splitOn ":" with
+  | ["O", i, h, n] => match i.toNat?, hexDecode h, n.toNat? with
+      | some b, some p, some k =>
+        let (isDisk, d) := st.getB b
+        (match openReader isDisk d b (s2l p) k with
+          | .ok (hd, got) => ((st, hs ++ [hd]), "ok:" ++ got)
+          | .error er => (acc, errS er))
+      | _, _, _ => (acc, "bad-op")
+  | ["F", j] => match j.toNat? with
+      | some k => (match hs[k]? with
+          | some hd => (acc, "ok:" ++ finishReader (st.getB hd.base).2 hd)
+          | none => (acc, "bad-op"))
+      | none => (acc, "bad-op")
+  | parts =>
+    let (st', out) := stepOp e st op
+    let hs' := match writeOf parts out with
+      | some (b, w) => afterWrite (st.getB b).2 b w hs
+      | none => hs
+    ((st', hs'), out)
+
 /-- kinds: a number n (n memory bases) or a string over {m,d}, one letter per base -/
 def parseKinds (s : String) : Option (List Bool) :=
   match s.toNat? with
@@ -130,9 +179,9 @@ def handleHist2 (expr nb ops : String) : String :=
   | some (e, []), some kinds =>
     let st0 : DState := kinds.map fun k => (k, BufModel.Disk.empty)
     let opsL := if ops = "-" then [] else ops.splitOn ";"
-    let (st, outs) := opsL.foldl (fun (acc : DState × List String) op =>
-      let (s', o) := stepOp e acc.1 op
-      (s', o :: acc.2)) (st0, [])
+    let ((st, _), outs) := opsL.foldl (fun (acc : (DState × List Handle) × List String) op =>
+      let (s', o) := stepOpH e acc.1 op
+      (s', o :: acc.2)) ((st0, []), [])
     ";".intercalate outs.reverse ++ String.join ((List.range kinds.length).map fun i => "|" ++ dump (st.getB i).2.files)
   | _, _ => "bad-op"
 
@@ -200,10 +249,31 @@ def handleXtr (fmt strip matcher maxSize entries : String) : String :=
       resS res ++ "|" ++ dump dest
   | _, _, _, _ => "bad-op"
 
+def parsePre (s : String) : Option Mem :=
+  if s = "-" then some [] else
+  (s.splitOn ",").mapM fun kv =>
+    match kv.splitOn "=" with
+    | [h, c] => (hexDecode h).map fun p => (s2l p, c)
+    | _ => none
+
+/-- dup: extract an entry list holding repeated / colliding members into a bucket that already
+    holds `pre`. -/
+def handleDup (fmt strip matcher maxSize entries pre : String) : String :=
+  match parseFmt fmt, strip.toNat?, parseMatcherField matcher, maxSize.toNat?, parsePre pre with
+  | some f, some n, some m, some mx, some m0 =>
+    let es := if entries = "-" then some [] else (entries.splitOn ",").mapM parseEntry
+    match es with
+    | none => "bad-op"
+    | some a =>
+      let (res, dest) := extractInto f n m mx a m0
+      resS res ++ "|" ++ dump dest
+  | _, _, _, _, _ => "bad-op"
+
 def handle : List String → String
   | ["hist2", expr, nb, ops] => handleHist2 expr nb ops
   | ["arc", fmt, strip, matcher, maxSize, expr, nb, puts] => handleArc fmt strip matcher maxSize expr nb puts
   | ["xtr", fmt, strip, matcher, maxSize, entries] => handleXtr fmt strip matcher maxSize entries
+  | ["dup", fmt, strip, matcher, maxSize, entries, pre] => handleDup fmt strip matcher maxSize entries pre
   | _ => "bad-op"
 
 def run : IO Unit := runLines handle
